@@ -166,8 +166,11 @@ def write_replay(prop_id, name, payload):
 
 
 def write_evidence(prop_id, ev):
-    os.makedirs(os.path.join(VERIF, "evidence"), exist_ok=True)
-    with open(os.path.join(VERIF, "evidence", prop_id + ".json"), "w") as f:
+    # VERIF_EVIDENCE_DIR: used when a check is tried against a seeded change, so that the committed
+    # evidence always describes a run on the unchanged tree
+    d = os.environ.get("VERIF_EVIDENCE_DIR") or os.path.join(VERIF, "evidence")
+    os.makedirs(d, exist_ok=True)
+    with open(os.path.join(d, prop_id + ".json"), "w") as f:
         json.dump(ev, f, indent=1)
 
 
